@@ -51,7 +51,7 @@ RuleNames == {
     "C10.NoPanic", "C10.NoBugError", "C10.BoundedBuffers",
     "C12.KeyUnique", "C12.LimitRespected", "C12.TableAgrees", "C12.RouteAgrees", "C12.DeliverToNamed", "C12.NoEviction", "C12.DeadCleanup", "C12.NoSpontaneousClose",
     "C13.AcceptFifo", "C13.BacklogBound", "C13.RefusedOnlyWhenFull", "C13.ExcessRefused", "C13.ResetMatches",
-    "C13.AcceptReturnsMatched", "C13.AcceptCallOrder", "C13.PairOnce", "C13.ReleaseOnAbandon",
+    "C13.AcceptReturnsMatched", "C13.AcceptCallOrder", "C13.PairOnce", "C13.ReleaseOnAbandon", "C13.NotStarved",
     "C18.NagleHold", "C18.NoHoldWhenOff", "C18.NagleDrain",
     "C11.EmitWellFormed", "C11.EmitConnId",
     "C14.NeverAboveLink", "C14.OrdinaryWithinProven", "C14.OneProbe", "C14.Converges", "C14.LogProbes", "C14.CeilingOnlyByFailure",
@@ -173,7 +173,12 @@ Tick(r) ==
     /\ now' = r.now
     /\ UNCHANGED <<run, meta, sendIdx, app, infl, pairs, last>>
     /\ JudgeAll(UNION { TickRules(k, r.now) : k \in DOMAIN eps }
-                \cup UNION { SockRules(a, { <<"C13.ExcessRefused", sk[a].rstDue # {}, FALSE>> }) : a \in DOMAIN sk })
+                \cup UNION { SockRules(a, { <<"C13.ExcessRefused", sk[a].rstDue # {}, FALSE>>,
+                      \* C13 "pending connection requests are handed to accept calls ..., so later calls are not starved":
+                      \* the dispatcher acts in no time, so when the clock advances no accept call is left waiting
+                      \* while a request is retained and the table has room
+                      <<"C13.NotStarved", Len(sk[a].calls) > Len(sk[a].matched) /\ sk[a].synq # <<>>
+                                          /\ Cardinality(sk[a].streams) < sk[a].limit /\ ~meta.cancelled, FALSE>> }) : a \in DOMAIN sk })
     /\ sk' = [a \in DOMAIN sk |-> [sk[a] EXCEPT !.rstDue = {}]]
     \* an obligation is reported once
     /\ eps' = [k \in DOMAIN eps |->
@@ -446,11 +451,12 @@ Disp(r) ==
                     <<"C04.WithinBuffer", w \in {"consumed", "out_of_order"}, R_C04_WithinBuffer(e1)>>,
                     \* C04 "the advertised receive window never exceeds the free space actually left" / C02 "progress never waits
                     \* for a retransmission": the next in-order packet, no larger than the window last advertised, with nothing
-                    \* held out of order, is not turned away
+                    \* held out of order, is not turned away.  (The window was advertised together with an acknowledgement
+                    \* number: what has been taken in since that emission counts against it.)
                     <<"C04.WindowHonest", w = "unavailable" /\ s = Nx(e.rnxt, 1) /\ DOMAIN e.held = {} /\ e.txCount > 0
-                                          /\ plen > 0 /\ plen <= e.lastWnd, FALSE>>,
+                                          /\ plen > 0 /\ e.unackedB + plen <= e.lastWnd, FALSE>>,
                     <<"C02.InWindowTaken", w \in {"unavailable", "consumed"} /\ s = Nx(e.rnxt, 1) /\ DOMAIN e.held = {}
-                                           /\ e.txCount > 0 /\ plen > 0 /\ plen <= e.lastWnd, w # "unavailable">>,
+                                           /\ e.txCount > 0 /\ plen > 0 /\ e.unackedB + plen <= e.lastWnd, w # "unavailable">>,
                     <<"C17.PeerFinInOrder", w = "fin_accepted", R_C17_PeerFinInOrder(e, s)>>,
                     \* C17 "until the initiator's first packet arrives": while the endpoint waits for the packet that
                     \* acknowledges its SYN-ACK, a packet that does not is dropped as a whole - its payload is not taken in
@@ -483,7 +489,9 @@ Disp(r) ==
 ---------------------------------------------------------------------------
 (* Application calls.                                                      *)
 Call(r) ==
-    /\ UNCHANGED <<run, now, sendIdx, app, infl, pairs, last>> /\ NoJudge
+    /\ UNCHANGED <<run, now, sendIdx, app, infl, pairs, last>>
+    \* (coverage of the obligation judged when the clock advances: an accept call that finds requests waiting)
+    /\ IF r.op = "accept" THEN JudgeAll(SockRules(r.sock, { <<"C13.NotStarved", Sock(r.sock).synq # <<>>, TRUE>> })) ELSE NoJudge
     /\ meta' = IF r.op = "cancel" THEN [meta EXCEPT !.cancelled = TRUE] ELSE meta
     /\ (IF r.op = "accept" THEN SetSock(r.sock, AcceptCalled(Sock(r.sock), r.ep)) ELSE UNCHANGED sk)
     /\ IF r.ep \in DOMAIN app /\ Live(app[r.ep]) /\ r.op = "shutdown"
